@@ -26,7 +26,7 @@ macro "close_step" : tactic => `(tactic| (
 theorem inv_init (s : St) (h : isInit s = true) : inv s = true := by
   obtain ⟨nc, mode, twice, closeErr, r, k, second, o, oSecond, n, w, feed, left, closedFlag, doneClosed, exited,
     rlDone, ncDoneClosed, closeCalls, lastErr, panic⟩ := s
-  cases nc <;> simp [isInit] at h <;> simp [inv, wf, kPastEntry, kPastSignal, kPastNcDone, h]
+  cases nc <;> cases r <;> simp [isInit] at h <;> simp [inv, wf, kPastEntry, kPastSignal, kPastNcDone, h]
 
 theorem inv_stepR (s s' : St) (h : inv s = true) (hs : s' ∈ stepR s) : inv s' = true := by
   obtain ⟨nc, mode, twice, closeErr, r, k, second, o, oSecond, n, w, feed, left, closedFlag, doneClosed, exited,
@@ -161,7 +161,7 @@ theorem stepN_nil (s : St) (h : stepN s = []) :
   split at h <;> (try split at h) <;> (try split at h) <;> simp_all
 
 theorem stepR_nil (s : St) (h : stepR s = []) :
-    s.r = .dead ∨ s.r = .parked
+    s.r = .dead ∨ s.r = .never ∨ s.r = .parked
     ∨ (s.r = .inRead ∧ (if implClosed s then s.mode = .stay else s.feed = .quiet)) := by
   unfold stepR at h
   split at h <;> (try split at h) <;> (try split at h) <;> simp_all
@@ -176,9 +176,10 @@ theorem inv_terminal_good (s : St) (h : inv s = true) (ht : next s = []) : good 
     · have := I.nice (.inr hk); simp [this] at hr
   have hdone : s.doneClosed = true := by simp [I.doneClosed, hk.1, kPastSignal]
   have hcalls : s.closeCalls = 1 := inv_ret_closed s h hk.1
-  have hr : s.mode = .stay ∨ s.r = .dead := by
-    rcases stepR_nil s hR with hr | hp | ⟨_, hm⟩
-    · exact .inr hr
+  have hr : s.mode = .stay ∨ s.r = .dead ∨ s.r = .never := by
+    rcases stepR_nil s hR with hr | hr | hp | ⟨_, hm⟩
+    · exact .inr (.inl hr)
+    · exact .inr (.inr hr)
     · have hd := I.rParked hp; simp [hdone] at hd
     · simp [implClosed, hcalls] at hm; exact .inl hm
   have hn : s.n = .absent ∨ s.n = .dead := by
@@ -194,7 +195,7 @@ theorem inv_terminal_good (s : St) (h : inv s = true) (ht : next s = []) : good 
   have htw : (!s.twice || s.second) = true := by
     have := hk.2; revert this; cases s.twice <;> cases s.second <;> simp
   simp only [good, Bool.and_eq_true, Bool.or_eq_true, decide_eq_true_eq]
-  exact ⟨⟨⟨⟨⟨⟨⟨I.panic, hk.1⟩, by simpa using htw⟩, hcalls⟩, ho⟩, hw⟩, hn⟩, hr⟩
+  exact ⟨⟨⟨⟨⟨⟨⟨I.panic, hk.1⟩, by simpa using htw⟩, hcalls⟩, ho⟩, hw⟩, hn⟩, by rcases hr with h | h | h <;> simp [h]⟩
 
 /-! ## termination: once `done` is closed every step decreases `rank` -/
 
